@@ -60,6 +60,22 @@ def pool():
 _W = {}
 
 
+class _ReadOnly:
+    """a stream with read(n) only (plus tell for the harness)"""
+    def __init__(self, b):
+        self._b, self._p = bytes(b), 0
+
+    def read(self, n=-1):
+        if n is None or n < 0:
+            n = len(self._b) - self._p
+        out = self._b[self._p:self._p + n]
+        self._p += len(out)
+        return out
+
+    def tell(self):
+        return self._p
+
+
 def scenario_event(args):
     s, msgs, written, cut, rdr, withref = args
     if "bp" not in _W:
@@ -82,7 +98,10 @@ def scenario_event(args):
         if cut < 0 or cut > len(data):
             cut = len(data)
         ev["cut"] = cut
-        rs = io.BytesIO(data[:cut])
+        # the kinds of stream a caller may read from: in-memory, a reader with a small buffer, an object with read(n) only
+        skind = (len(data) + cut + rdr) % 3
+        rs = io.BytesIO(data[:cut]) if skind == 0 else io.BufferedReader(io.BytesIO(data[:cut]), buffer_size=5) if skind == 1 else _ReadOnly(data[:cut])
+        ev["case"]["stream"] = ["BytesIO", "BufferedReader(5)", "read-only"][skind]
         for k in range(len(written) + 1):
             wty = msgs[written[min(k, len(written) - 1)] - 1]["ty"]
             rty = READERS[wty][rdr - 1]
